@@ -72,16 +72,14 @@ Example C18_checker_rejects :
   wf_code ops_table (with_topo p_example [1; 2]) = 64.            (* subgraph missing from the order *)
 Proof. vm_compute. repeat split; reflexivity. Qed.
 
-(* ---- known finding (key order/reference-crosses-loop-boundary).
-   p_ref_into_loop is the REAL partition_graph output (harness dump, re-derived on every run as a
-   corpus case) for
+(* ---- former finding order/reference-crosses-loop-boundary (fixed in /repo 0840b054cc8).
+   p_ref_into_loop is what partition_graph USED to return for
      i1 = source_iter([1]); i2 = source_iter([2]);
      loop { i1 -> batch() -> for_each(drop); i2 -> batch() -> map(|x| x + #s) -> for_each(drop); };
      s = source_iter([5]) -> fold(|| 0, |a, x| *a += x) -> singleton();
-   subgraph_toposort = [1;2;3;5;4]: subgraph 5 (holding map(.. #s ..), node 6) is emitted BEFORE
-   subgraph 4 (fold, node 9, the producer of singleton 10).  So the property's full statement is
-   false of the implementation; the model-level statement cannot be refuted inside Coq because the
-   merging loop is not modelled -- the witness is the implementation's own output. *)
+   with subgraph_toposort = [1;2;3;5;4]: subgraph 5 (holding map(.. #s ..), node 6) before
+   subgraph 4 (the producer of singleton 10).  Kept as a witness that the checker rejects such an
+   order; the program itself is corpus/C18/reference_into_loop.json and must now be well formed. *)
 Definition p_ref_into_loop : graph :=
   mkGraph [mkNode 1 (KOp "source_iter") None [] (Some 1) None;
            mkNode 2 (KOp "source_iter") None [] (Some 2) None;
@@ -101,7 +99,7 @@ Definition p_ref_into_loop : graph :=
           [mkLoop 1 None [3; 4; 5; 6; 7]]
           [mkSg 1 [1]; mkSg 2 [2]; mkSg 3 [3; 4]; mkSg 4 [8; 9]; mkSg 5 [5; 6; 7]] [1; 2; 3; 5; 4].
 
-Theorem C18_refuted_reference_into_loop :
+Theorem C18_checker_rejects_misordered_reference :
   wf_code ops_table p_ref_into_loop = 32 /\ ~ WellFormed ops_table p_ref_into_loop.
 Proof.
   split; [vm_compute; reflexivity|].
@@ -114,4 +112,4 @@ Proof.
     specialize (Hprod 9). assert (In 9 (preds_pipe p_ref_into_loop 10)) by (vm_compute; tauto).
     specialize (Hprod H). vm_compute in Hprod. discriminate.
 Qed.
-Print Assumptions C18_refuted_reference_into_loop.
+Print Assumptions C18_checker_rejects_misordered_reference.
